@@ -29,7 +29,11 @@ def seed():
 def scratch_dir():
     if _state["scratch"] is None:
         d = tempfile.mkdtemp(prefix="allfed_verif_")
-        os.makedirs(os.path.join(d, "results"), exist_ok=True)
+        os.makedirs(os.path.join(d, "results", "large_reports"), exist_ok=True)
+        # the modules that write result files build their paths from a module-level repo_root; boot() points that
+        # at this directory, so what they read through it (the country table, the scenario files) is linked in
+        for sub in ("data", "scenarios"):
+            os.symlink(os.path.join(REPO, sub), os.path.join(d, sub))
         _state["scratch"] = d
         atexit.register(shutil.rmtree, d, True)
     return _state["scratch"]
@@ -75,12 +79,15 @@ def boot(model=True):
 
         ir.repo_root = d
         rs.repo_root = d
-        try:
-            import src.scenarios.run_model_no_trade as rm
+        # figures, the pptx report and the web-interface csv files go to the scratch directory too: worker processes
+        # must not share file names (a half-written png read by another process is a harness race, not an observation)
+        for name in ("src.scenarios.run_model_no_trade", "src.utilities.plotter", "src.utilities.make_powerpoint"):
+            try:
+                import importlib
 
-            rm.repo_root_for_results = d  # informational; NO_TRADE_CSV still read from rm.repo_root
-        except Exception:
-            pass
+                importlib.import_module(name).repo_root = d
+            except Exception:
+                pass
         src_file = os.path.abspath(sys.modules["src.scenarios.run_scenario"].__file__)
         assert src_file.startswith(REPO + os.sep), (src_file, REPO)
 
